@@ -240,7 +240,7 @@ inductive Reach (digest : Items → Digest) (cf : Bool) : St → Prop where
   | step {s : St} : Reach digest cf s → Reach digest cf (step digest s)
 
 /-- the digest the oracle and the non-vacuity examples instantiate `digest` with: a positional code of the item list
-    (path ids < 16, content ids < 7; the harness computes the same number for the real SHA-256 digests it meets) -/
-def natDigest (l : Items) : Digest := l.foldl (fun a p => a * 128 + (p.1 * 8 + p.2 + 1)) 0
+    (path ids < 31, content ids < 7; the harness computes the same number for the real SHA-256 digests it meets) -/
+def natDigest (l : Items) : Digest := l.foldl (fun a p => a * 256 + (p.1 * 8 + p.2 + 1)) 0
 
 end Spok.Run
